@@ -14,6 +14,7 @@ CONSTANTS
   LiteralOrd = FALSE
   FormulaOrd = FALSE
   VaryInit = FALSE
+  OverIssue = FALSE
   MaxLevel = 100
 CONSTRAINT Bound
 INVARIANT MutexEns
